@@ -79,7 +79,7 @@ func plan(tier string, seed int64) []run.Batch {
 	}
 	reps, stressRounds, ivVariants, linBatches, pathBatches := 1, 1, 1, 4, 1
 	if tier == "thorough" {
-		reps, stressRounds, ivVariants, linBatches, pathBatches = 5, 3, 4, 6, 2
+		reps, stressRounds, ivVariants, linBatches, pathBatches = 5, 6, 8, 12, 2
 	}
 	// the long batches first
 	add("cover", 0, "racecover", 400, nil)
@@ -117,6 +117,7 @@ func plan(tier string, seed int64) []run.Batch {
 }
 
 func child(b run.Batch, r *ev.Result) {
+	curBatch = b
 	switch b.Kind {
 	case "stress":
 		childStress(b, r)
@@ -147,6 +148,9 @@ func childCover(b run.Batch, r *ev.Result) {
 		return x
 	}
 	childPaths(sub("paths", 0, nil), r)
+	if abandoned.Load() {
+		return
+	}
 	childStress(sub("stress", 2, map[string]string{"slice": fmt.Sprint(b.Seed % 18), "of": "18"}), r)
 	// one delay cell per site and per operation
 	cells := delayCells()
@@ -154,17 +158,20 @@ func childCover(b run.Batch, r *ev.Result) {
 	rot := int(b.Seed % 7)
 	for i := range cells {
 		c := cells[(i*7+rot)%len(cells)]
-		if seenS[c.Site] && seenO[c.Op] {
+		if (seenS[c.Site] && seenO[c.Op]) || abandoned.Load() {
 			continue
 		}
 		seenS[c.Site], seenO[c.Op] = true, true
 		runDelayCell(filepath.Join(b.Dir, fmt.Sprintf("d%d", c.Idx)), c, int(b.Seed%2), b.Seed*1000+int64(c.Idx), r)
 	}
 	for _, c := range interleaveCells() {
-		if (c.Idx+int(b.Seed))%3 != 0 {
+		if (c.Idx+int(b.Seed))%3 != 0 || abandoned.Load() {
 			continue
 		}
 		runInterleaveCell(filepath.Join(b.Dir, fmt.Sprintf("i%d", c.Idx)), c, int(b.Seed), b.Seed*1000+int64(c.Idx), r)
+	}
+	if abandoned.Load() {
+		return
 	}
 	childLin(sub("lin", 2, nil), r)
 	r.Count("cover.tours", 1)
@@ -172,7 +179,7 @@ func childCover(b run.Batch, r *ev.Result) {
 
 // ---------------------------------------------------------------- dead children
 
-var gHeader = regexp.MustCompile(`^goroutine (\d+) \[([^\]]*)\]:`)
+var gHeader = regexp.MustCompile(`^goroutine (\d+) [^\[]*\[([^\]]*)\]:`) // SIGQUIT dumps carry "gp=… m=…" before the state
 
 type gdump struct {
 	id     string
@@ -214,15 +221,24 @@ const serverPkg = "github.com/glowlabs-org/gca-backend/server."
 // goroutine of package server is doing anything but idling (listeners, job
 // sleeps, hook sites) -> nobody can ever release the lock -> violation.
 func classifyDeath(c *ev.Check, o *run.Outcome) bool {
-	if !o.TimedOut {
-		return false
-	}
 	dump := o.Stderr
 	if b, err := os.ReadFile(filepath.Join(o.Dir, "stderr")); err == nil && len(b) > len(dump) {
 		dump = string(b)
 	}
+	// Test-mode servers panic by design when they are 120 s old. A child that hangs on a leaked
+	// lock usually dies of that guard before the watchdog fires; the panic prints the same
+	// all-goroutine dump (GOTRACEBACK=all), so it is classified the same way. Without parked
+	// goroutines it only means the harness did not finish with that server in time (CPU
+	// starvation): inconclusive, never a violation.
+	lifetime := strings.Contains(dump, "server lived for longer than 120 seconds")
+	if !o.TimedOut && !lifetime {
+		return false
+	}
 	if o.Result != nil {
 		c.Merge(o.Result)
+	}
+	if os.Getenv("VERIF_C13_DEBUG") != "" {
+		os.WriteFile(fmt.Sprintf("/tmp/c13/dump-%d.txt", o.Batch.Index), []byte(dump), 0644)
 	}
 	gs := parseDump(dump)
 	if len(gs) == 0 {
@@ -249,6 +265,9 @@ func classifyDeath(c *ev.Check, o *run.Outcome) bool {
 		if !inServer {
 			continue
 		}
+		if len(g.frames) > 0 && (g.frames[0] == "panic" || (lifetime && g.state == "running" && first == "NewGCAServer.func1")) {
+			continue // the lifetime guard itself, which is panicking
+		}
 		top := strings.Join(g.frames, " ")
 		for _, idleMark := range []string{"threadgroup.(*ThreadGroup).Sleep", "net.(*TCPListener).Accept", "net.(*UDPConn).ReadFromUDP", "net.(*UDPConn).readFrom",
 			"net/http.(*Server).Serve", "verifharness/lib/drv.gate"} {
@@ -270,12 +289,16 @@ func classifyDeath(c *ev.Check, o *run.Outcome) bool {
 	replay := map[string]interface{}{"batch": o.Batch, "oplog_tail": o.OplogTail, "blocked": blocked, "other_server_goroutines": busy}
 	if len(blocked) > 0 && len(busy) == 0 {
 		sort.Strings(blocked)
-		c.Violation("deadlock-or-leaked-lock", fmt.Sprintf("batch %d (%s) hung until the watchdog; %d goroutine(s) of package server are parked in sync.(*Mutex).Lock and no goroutine of package server is running or holding work that could release it: %s",
+		c.Violation("deadlock-or-leaked-lock", fmt.Sprintf("batch %d (%s) hung; %d goroutine(s) of package server are parked in sync.(*Mutex).Lock and no goroutine of package server is running or holding work that could release it: %s",
 			o.Batch.Index, o.Batch.Kind, len(blocked), strings.Join(blocked, "; ")), replay)
 		return true
 	}
-	c.Inconc(fmt.Sprintf("batch %d (%s) hit the %ds watchdog; goroutine dump: %d server goroutines parked on a mutex, %d others active (%v); last ops: %v",
-		o.Batch.Index, o.Batch.Kind, o.Batch.TimeoutS, len(blocked), len(busy), busy, lastOps(o.OplogTail)))
+	what := fmt.Sprintf("hit the %ds watchdog", o.Batch.TimeoutS)
+	if !o.TimedOut {
+		what = "kept a test-mode server alive for more than 120 s (its lifetime guard ended the process)"
+	}
+	c.Inconc(fmt.Sprintf("batch %d (%s) %s; goroutine dump: %d server goroutines parked on a mutex, %d others active (%v); last ops: %v",
+		o.Batch.Index, o.Batch.Kind, what, len(blocked), len(busy), busy, lastOps(o.OplogTail)))
 	return true
 }
 
